@@ -610,6 +610,7 @@ def r7_ranges(facts):
     if n < 2:
         raise build.AnalysisBroken('C18.R7: functions deriving the live volume model from the setup not found (%d)' % n)
     out += r7_model_table(facts)
+    out += r7_auto_sentinel(facts)
     return out
 
 
@@ -804,4 +805,47 @@ def r10_lock_scope(facts):
                            '%s is not one of the values the locked formats force (%s): with such a song loaded the setter stores the request but the value does not come into force' % (fld, ', '.join(sorted(forced)))))
     if n < 2:
         raise build.AnalysisBroken('C18.R10: lock-guarded live stores of the setters not found (%d)' % n)
+    return out
+
+
+def r7_auto_sentinel(facts):
+    """lfoEnable, lfoFrequency and chipType have -1 = "take the bank's value"; 0 is an ordinary value (LFO off, frequency 0, OPN2).
+    In applySetup and in the setters the branch that copies the bank default must be the one taken for a negative setting only:
+    fold each condition on such a field at -1, 0 and 1 and look at what the selected branch stores."""
+    out = []
+    fields = ('lfoEnable', 'lfoFrequency', 'chipType')
+    n = 0
+    for fname in ('OPNMIDIplay::applySetup', 'opn2_setLfoEnabled', 'opn2_setLfoFrequency', 'opn2_setChipType'):
+        fns = facts.fns.get(fname)
+        if not fns or fns[0].tree is None:
+            continue
+        fn = fns[0]
+        for x in walk(fn.tree):
+            if not (isinstance(x, dict) and x.get('k') == 'IfStmt' and x.get('cond') is not None and x.get('else') is not None):
+                continue
+            lits = literals(x['cond'], True)
+            if len(lits) != 1 or lits[0][0] != 'cmp':
+                continue
+            nn = cmp_norm(lits[0])
+            if not nn or not isinstance(nn[2], int):
+                continue
+            fld = [short(y['n']) for y in walk(nn[1]) if isinstance(y, dict) and y.get('k') == 'MemberExpr' and short(y.get('n', '')) in fields and 'Setup' in y.get('n', '')]
+            if not fld:
+                continue
+            def src(branch):
+                txt = show(branch) if isinstance(branch, dict) else ' '.join(show(b_) for b_ in (branch or []))
+                return 'bank' if 'm_insBankSetup' in txt else ('user' if 'm_setup' in txt or 'Setup' in txt else '?')
+            st_, se_ = src(x.get('then')), src(x.get('else'))
+            if {st_, se_} != {'bank', 'user'}:
+                continue
+            n += 1
+            op, c = nn[0], nn[2]
+            f_ = {'<': lambda v: v < c, '<=': lambda v: v <= c, '>': lambda v: v > c, '>=': lambda v: v >= c, '==': lambda v: v == c, '!=': lambda v: v != c}[op]
+            sel = tuple(st_ if f_(v) else se_ for v in (-1, 0, 1))
+            ok = sel == ('bank', 'user', 'user')
+            out.append(Obl('C18.R7', fn.name, '%s: bank default only for a negative setting' % fld[0], '%s:%s' % (fn.file, x.get('ln')), 'discharged' if ok else 'finding',
+                           why='-1 -> bank, 0 and 1 -> the value set' if ok else
+                           'for %s = -1, 0, 1 the code takes %s: the explicit value 0 is replaced by the bank default the next time the setup is applied (file load, chip type change)' % (fld[0], ', '.join(sel))))
+    if n < 3:
+        raise build.AnalysisBroken('C18.R7: bank-default selections on lfoEnable / lfoFrequency / chipType not found (%d)' % n)
     return out
